@@ -1,6 +1,6 @@
 (* C14 — Rebalances complete only when every member has rejoined.
    Only statements closed by [exact]; proofs live in proofs/CoordinatorProofs.v. *)
-From KS Require Import lib.Base model.Coordinator proofs.CoordinatorBase proofs.CoordinatorProofs.
+From KS Require Import lib.Base model.Coordinator proofs.CoordinatorBase proofs.CoordinatorProofs proofs.CoordinatorTrace.
 Open Scope Z_scope.
 
 (* (1) a join reply reports success only when every current member has joined the
@@ -37,6 +37,19 @@ Theorem C14_sync_after_leader_sync : forall E h mid now g,
                   s_mem s' = Some g' /\ g_phase g' = PStable /\ g_gen g' = g_gen g.
 Proof. intros E h. intros. eapply c14_sync_after_leader_sync; [apply run_inv|eassumption..]. Qed.
 Print Assumptions C14_sync_after_leader_sync.
+
+(* (4') multi-step: once the leader has synced (Stable), after ANY continuation during
+       which the group keeps existing and at whose end the generation is still the same,
+       every member's sync of that generation succeeds and returns the assignment it had *)
+Theorem C14_sync_whole_generation : forall E h h2 n0 now g g' mid,
+  alive_all E (run E h) h2 ->
+  cur (run E h) n0 = Some g -> g_phase g = PStable -> In mid (keys g) ->
+  cur (run_from E (run E h) h2) now = Some g' -> g_gen g' = g_gen g ->
+  exists s' a g2, step E (run_from E (run E h) h2) (Sync mid (g_gen g) now) = (s', RSync NONE a) /\
+                  s_mem s' = Some g2 /\ g_phase g2 = PStable /\ g_gen g2 = g_gen g /\
+                  a = assignment_of g mid.
+Proof. intros E h h2 n0 now g g' mid. apply c14_sync_whole_generation. apply run_inv. Qed.
+Print Assumptions C14_sync_whole_generation.
 
 (* non-vacuity: two members; the second join is answered REBALANCE_IN_PROGRESS until the
    first has rejoined; the leader (smallest id) gets the member list *)
